@@ -127,6 +127,21 @@ def build(name, lines, sel, variant=None):
     return fn(lines) if pts is None else fn(lines, pts)
 
 
+def use_geometry(geom):
+    """Use the geometry the way geolocation does (view vectors with a non-zero attitude, pixel times) before it is inspected:
+    a definition is a value - using it must not change its angles or times."""
+    try:
+        f = np.asarray(geom.fovs)
+        shp = f.shape[1:]
+        pos = np.broadcast_to(np.array([7000.0, 120.0, -300.0]).reshape((3,) + (1,) * len(shp)), (3,) + shp).copy()
+        vel = np.broadcast_to(np.array([0.3, 7.2, 1.9]).reshape((3,) + (1,) * len(shp)), (3,) + shp).copy()
+        with np.errstate(all="ignore"):
+            geom.vectors(pos, vel, 0.0017453292519943296, -0.0008726646259971648, 0.0005)
+        geom.times(np.datetime64("2020-01-01T00:00:00"))
+    except Exception:  # noqa  the use itself is C07's subject
+        pass
+
+
 def times_ns(geom, start_kind="np"):
     """times(start) - start as int64 nanoseconds (start given as datetime64 or as datetime.datetime)."""
     s64 = np.datetime64(START, "ns")
@@ -315,6 +330,7 @@ def judge(name, lines, sel, variant=None, full_cache=None, check_subset=True):
     P = len(pts)
     L = lines * sp.get("det", 1)
     geom = build(name, lines, sel, variant)
+    use_geometry(geom)
     fovs = np.asarray(geom.fovs)
     t, dtype = times_ns(geom, "np")
     # shapes
